@@ -289,6 +289,10 @@ def signature_of(job, klass, detail):
     ptype = "?"
     mm = re.search(r"POLY type=(\S+)", job["r"]["out"])
     if mm: ptype = mm.group(1)
+    if klass == "sanitizer" and "__mps_djacobi_aberth_step_worker" in job["r"]["err"] \
+       and (detail.startswith("ub:signed-integer-overflow") or detail.startswith("unknown")):
+        # Jacobi-style DPE packet (mps_daberth_packet: preliminary packet of secular-ga started with -t d, or -b): one call path, several overflow sites in mt.c, thread-timing dependent
+        return "sanitizer:dpe-exponent-overflow:djacobi_aberth_step:%s:alg=%s" % (ptype, alg)
     if klass == "sanitizer" and job["row"].get("D", "n") != "n" and job["row"].get("o") is not None and c["cls"] not in SPECIAL_CLS \
        and (detail.startswith("ub:signed-integer-overflow") or detail.startswith("unknown")):
         # same root cause as the runs with -D and -o that do not end: the precision runs away until a DPE exponent overflows
